@@ -13,7 +13,7 @@
    the events of finalisation.  `wrapped_observe_with fwd` is the same for the object the profiler's wrapper
    returns; `erase_obs` removes the Enable/Disable events the wrapper adds on purpose. *)
 From Coq Require Import List ZArith Bool String.
-From LP Require Import Wrap.Protocol Wrap.GenWrap Wrap.CoroWrap Wrap.GenWrapFun Wrap.GenWrapRepaired.
+From LP Require Import Wrap.Protocol Wrap.GenWrap Wrap.CoroWrap Wrap.GenWrapFun Wrap.GenWrapRepaired Wrap.CoroWrapAwait.
 Import ListNotations.
 Open Scope Z_scope.
 
@@ -188,6 +188,31 @@ Theorem C03_nonforwarding_wrapper_partial :
     erase_obs (wrapped_observe_with false k b s0 ops) = plain_observe k b s0 ops.
 Proof. exact (fun k S b s0 ops Hk Hs => wrap_gen_send_only k b s0 ops Hk Hs). Qed.
 
+(* ---- @types.coroutine generator functions, awaited ------------------------------------------- *)
+(* Driven as generators they are covered by C03_generator_operations / C03_generator_full.  They may also be
+   awaited: `async def outer(): return await f()`.  `awaited_observe KGen body kill s0 ops` is what a client
+   of `outer` sees (operations on `outer`, then dropping it) when f's code is `body`.  With the decorated f -
+   whose wrapper keeps the @types.coroutine mark since /repo f61df74, so it can be awaited at all - the
+   client sees exactly what it sees with the original f: every body honouring the close contract, every
+   history (send / throw, GeneratorExit included / close in any order). *)
+Theorem C03_types_coroutine_awaited :
+  forall (S : Type) (b : body S) (s0 : S) (ops : list op),
+    honours_close b ->
+    erase_obs (awaited_observe KGen (wrap_gen repo_forwards KGen (observed b) nokill s0)
+                               (wkill (observed b) nokill) WInit ops)
+    = awaited_observe KGen (observed b) nokill s0 ops.
+Proof. exact (fun S b s0 ops Hc => await_wrapped_transparent b s0 Hc ops). Qed.
+
+Theorem C03_types_coroutine_awaited_nonvacuous :
+  honours_close awit
+  /\ awaited_observe KGen (observed awit) nokill 0 [OpNext; OpSend 2; OpThrow KeyErr; OpSend 3]
+     = ([([EIn (SendV 0)], OYield 1); ([EIn (SendV 2)], OYield 12); ([EIn (ThrowE KeyErr)], OYield 5);
+         ([EIn (SendV 3)], OStop 23)], [])
+  /\ awaited_observe KGen (wrap_gen true KGen (observed awit) nokill 0) (wkill (observed awit) nokill) WInit
+       [OpNext; OpClose]
+     = ([([EEnable; EIn (SendV 0); EDisable], OYield 1); ([EEnable; EIn (ThrowE GenExit); EDisable], ONone)], []).
+Proof. exact await_nonvacuous. Qed.
+
 (* ---- kernprof's interval timer (kernprof -i) ------------------------------------------------ *)
 (* A program under kernprof: calls of functions decorated by kernprof's profiler p, interleaved in any way
    with ticks of the interval timer (another thread calling prof.dump_stats).  For every tick function that
@@ -214,31 +239,26 @@ Theorem C03_timer_nonvacuous :
 Proof. exact resuming_tick_breaks_calls. Qed.
 
 (* ---- metadata ------------------------------------------------------------------------------- *)
-(* name, docstring, signature of what wrap_callable returns for a function object of ANY kind are those of
-   the original *)
+(* name, docstring, signature and function kind of what wrap_callable returns for a function object of
+   ANY kind - plain, generator, coroutine, async generator, and generator marked @types.coroutine (kept
+   awaitable since /repo f61df74) - are those of the original *)
+Theorem C03_metadata : forall m : fmeta, wrap_meta m = m.
+Proof. exact wrap_meta_id. Qed.
+
 Theorem C03_metadata_names :
   forall m : fmeta,
     m_name (wrap_meta m) = m_name m /\ m_doc (wrap_meta m) = m_doc m /\ m_sig (wrap_meta m) = m_sig m.
 Proof. exact wrap_meta_names. Qed.
 
-(* ... and so is the function kind for plain functions, generator functions, coroutine functions and
-   async generator functions.  Missing w.r.t. the full statement (forall m, wrap_meta m = m): generator
-   functions marked @types.coroutine, see C03_metadata_refuted. *)
-Theorem C03_metadata_partial : forall m : fmeta, m_kind m <> FGenCoroutine -> wrap_meta m = m.
-Proof. exact wrap_meta_id. Qed.
-
-(* The full statement is FALSE of the faithful model: a @types.coroutine generator function (for inspect a
-   generator function whose result may be awaited) is given wrap_generator's plain generator closure - the
-   iterable-coroutine flag is lost and `await decorated()` raises TypeError. *)
-Theorem C03_metadata_refuted :
-  forall m : fmeta, m_kind m = FGenCoroutine -> m_kind (wrap_meta m) = FGenerator /\ wrap_meta m <> m.
-Proof. exact wrap_meta_gencoroutine. Qed.
-
+(* non-vacuous; and the types.coroutine marking of f61df74 is what keeps the last kind: without it the
+   decorated @types.coroutine function is a plain generator function *)
 Theorem C03_metadata_nonvacuous :
-  wrap_meta {| m_name := "fib"; m_doc := Some "doc"%string; m_sig := 3; m_kind := FAsyncGenerator |}
-  = {| m_name := "fib"; m_doc := Some "doc"%string; m_sig := 3; m_kind := FAsyncGenerator |}
-  /\ template FAsyncGenerator
-     <> {| m_name := "fib"; m_doc := Some "doc"%string; m_sig := 3; m_kind := FAsyncGenerator |}
-  /\ wrap_meta {| m_name := "sleep0"; m_doc := None; m_sig := 1; m_kind := FGenCoroutine |}
-     = {| m_name := "sleep0"; m_doc := None; m_sig := 1; m_kind := FGenerator |}.
-Proof. exact wrap_meta_nonvacuous. Qed.
+  (wrap_meta {| m_name := "fib"; m_doc := Some "doc"%string; m_sig := 3; m_kind := FAsyncGenerator |}
+   = {| m_name := "fib"; m_doc := Some "doc"%string; m_sig := 3; m_kind := FAsyncGenerator |}
+   /\ template FAsyncGenerator
+      <> {| m_name := "fib"; m_doc := Some "doc"%string; m_sig := 3; m_kind := FAsyncGenerator |}
+   /\ wrap_meta {| m_name := "sleep0"; m_doc := None; m_sig := 1; m_kind := FGenCoroutine |}
+      = {| m_name := "sleep0"; m_doc := None; m_sig := 1; m_kind := FGenCoroutine |})
+  /\ (forall m, m_kind m = FGenCoroutine ->
+        m_kind (wraps m (template (dispatch m))) = FGenerator /\ wraps m (template (dispatch m)) <> m).
+Proof. exact (conj wrap_meta_nonvacuous unmarked_gencoroutine_loses_kind). Qed.
